@@ -92,7 +92,13 @@ class WsMock:
                 self.delivered_in_malformed_document[k["guid"]] = k["key"]
                 self.log.append((now, "issued-in-malformed-document", k["guid"]))
                 how = f.get("how", "wrong-type")
-                if how == "wrong-type":
+                if how == "non-hex-key":
+                    k["key"] = k["key"][:40] + "g" + k["key"][41:]      # a well-formed document whose key value is not hex
+                    self.delivered_in_malformed_document[k["guid"]] = k["key"]
+                elif how == "odd-length-key":
+                    k["key"] = k["key"][:63]
+                    self.delivered_in_malformed_document[k["guid"]] = k["key"]
+                elif how == "wrong-type":
                     k["incarnationId"] = "one"
                 elif how == "missing-member":
                     k.pop("issued")
